@@ -6,7 +6,11 @@ vectors / densities and each result is compared with the direct
 nsf.neutron_sld(sum_i w_i*material_i, density=rho, wavelength=...).  The oracle
 of the calculator is the direct route (the source marks the calculator as a
 duplicate of it); shapes are compared with the shape of the wavelength
-argument; the vacuum cases (zero total weight, zero density) by value."""
+argument; the vacuum cases (zero total weight, zero density) by value.
+The icontract postconditions on the PRIVATE helpers nsf._sum_piece / nsf._calculate_scattering, the entry
+counter on the code behind the returned calculator and the line counters are optional instrumentation: where a
+tree does not have them (helper merged, renamed, turned into a class; body re-written) they are skipped, noted
+and their reach requirements waived through anchor_missing.*; the differential oracle uses public calls only."""
 import json
 import math
 
@@ -66,11 +70,16 @@ def post_sum_piece(wavelength, compound, result):
     """_sum_piece returns (number of atoms, molar mass, sum n_i b_i, sum n_i sigma_i) of the material,
     with b_c and sigma_s shaped like the wavelength."""
     import numpy as np
+    try:
+        num_atoms, molar_mass, b_c, sigma_s = result
+        atoms = compound.atoms
+        n = sum(atoms.values())
+        m = compound.mass
+        float(num_atoms), float(molar_mass)
+    except Exception:           # a private helper may take / return what it likes: not judged
+        _state['n']['contract._sum_piece.unrecognised_result'] += 1
+        return True
     _state['n']['contract._sum_piece'] += 1
-    num_atoms, molar_mass, b_c, sigma_s = result
-    atoms = compound.atoms
-    n = sum(atoms.values())
-    m = compound.mass
     if abs(num_atoms - n) > 1e-12 * abs(n) or abs(molar_mass - m) > 1e-12 * abs(m):
         _state['breach'] = ('_sum_piece(%s): num_atoms %r (sum of counts %r), molar_mass %r (formula mass %r)'
                             % (compound, num_atoms, n, molar_mass, m))[:600]
@@ -84,6 +93,11 @@ def post_sum_piece(wavelength, compound, result):
 
 def post_nonnegative(number_density, wavelength, b_c, sigma_s, result):
     import numpy as np
+    try:
+        (sld_re, sld_im, sld_inc), (coh, abs_, inc), pen = result
+    except Exception:           # a private helper may return what it likes: not judged
+        _state['n']['contract._calculate_scattering.unrecognised_result'] += 1
+        return True
     _state['n']['contract._calculate_scattering'] += 1
     try:
         fin = all(bool(np.all(np.isfinite(np.asarray(x, dtype=complex)))) for x in (number_density, wavelength, b_c, sigma_s))
@@ -93,7 +107,6 @@ def post_nonnegative(number_density, wavelength, b_c, sigma_s, result):
         return True
     if np.any(np.asarray(sigma_s) - 4 * math.pi / 100 * np.abs(np.asarray(b_c)) ** 2 < 0):
         _state['n']['reach.direct_clip_engaged'] += 1
-    (sld_re, sld_im, sld_inc), (coh, abs_, inc), pen = result
     for name, x in zip(('sld_im', 'sld_inc', 'coh_xs', 'abs_xs', 'inc_xs', 'penetration'), (sld_im, sld_inc, coh, abs_, inc, pen)):
         if not np.all(np.asarray(x, dtype=float) >= 0):
             _state['breach'] = ('%s = %r for number_density=%r wavelength=%r b_c=%r sigma_s=%r'
@@ -108,32 +121,38 @@ def _breach_text(exc):
     return '%s [%s]' % (head, _state.pop('breach', 'no values recorded'))
 
 
-def attach_contracts(nsf):
+def _sum_piece_adapter(wavelength, compound, _call):
+    """Fixed-signature adapters carrying the icontract postconditions of the PRIVATE helpers; _call is the pending
+    call of the original with whatever arguments it was given (pvmon.ref.neutron.tolerant)."""
+    return _call()
+
+
+def _calculate_scattering_adapter(number_density, wavelength, b_c, sigma_s, _call):
+    return _call()
+
+
+def attach_contracts(ctx, nsf):
+    """icontract postconditions on the private helpers nsf._sum_piece and nsf._calculate_scattering: optional
+    instrumentation.  A helper that is absent (merged, renamed, turned into a class) is skipped, noted and its
+    reach requirement waived; a call whose arguments cannot be bound to the expected parameter names, or whose
+    result has another structure, is passed through un-judged and counted."""
     import icontract
     from collections import Counter
-    _state['n'] = Counter()
+    from ..ref.neutron import private, tolerant
+    n = _state['n'] = Counter()
     if getattr(nsf, '_pvmon_c17_contracts', False):
         return
-    nsf._sum_piece = icontract.ensure(
-        post_sum_piece, '_sum_piece == (sum n_i, mass, ...) of the material, shaped like the wavelength',
-        error=ContractBreach)(nsf._sum_piece)
-    nsf._calculate_scattering = icontract.ensure(
-        post_nonnegative, 'sld_im, sld_inc, coh, abs, inc, penetration >= 0', error=ContractBreach)(nsf._calculate_scattering)
+    orig = private(ctx, nsf, '_sum_piece', ['contract._sum_piece'])
+    if orig is not None:
+        nsf._sum_piece = tolerant(orig, ('wavelength', 'compound'), icontract.ensure(
+            post_sum_piece, '_sum_piece == (sum n_i, mass, ...) of the material, shaped like the wavelength',
+            error=ContractBreach)(_sum_piece_adapter), n, 'contract._sum_piece')
+    orig = private(ctx, nsf, '_calculate_scattering', ['contract._calculate_scattering', 'reach.direct_clip_engaged'])
+    if orig is not None:
+        nsf._calculate_scattering = tolerant(orig, ('number_density', 'wavelength', 'b_c', 'sigma_s'), icontract.ensure(
+            post_nonnegative, 'sld_im, sld_inc, coh, abs, inc, penetration >= 0', error=ContractBreach)(
+                _calculate_scattering_adapter), n, 'contract._calculate_scattering')
     nsf._pvmon_c17_contracts = True
-
-
-def _watch_first(ctx, reach, func, texts, label):
-    """Watch the first source line of *func* matching one of *texts*; a source that no longer contains any of
-    them must not stop the check (the reach requirement is then dropped and the fact is noted)."""
-    for text in texts:
-        try:
-            reach.watch_line_matching(func, text, label)
-        except (LookupError, OSError, TypeError):
-            continue
-        _state['watched'].add(label)
-        return True
-    ctx.note('no source line for reach counter %s in %s' % (label, getattr(func, '__qualname__', func)))
-    return False
 
 
 def setup(ctx):
@@ -142,18 +161,20 @@ def setup(ctx):
     from ..gen import compounds as G
     pt.elements.H.neutron
     _state['uni'] = G.Universe(pt.elements)
-    attach_contracts(nsf)
-    calc = nsf.neutron_composite_sld([pt.formula('H2O')], wavelength=2.0)     # the closure, for its code object
+    from ..ref.neutron import watch_entry, watch_lines
+    attach_contracts(ctx, nsf)
+    calc = nsf.neutron_composite_sld([pt.formula('H2O')], wavelength=2.0)     # the calculator, for its code object
     reach = Reach()
-    reach.watch(nsf.neutron_composite_sld, 'neutron_composite_sld')
-    reach.watch(calc, '_compute')
+    watch_entry(ctx, reach, nsf.neutron_composite_sld, 'neutron_composite_sld', requirements=[])
+    # the code behind the returned calculator (a closure on the pinned tree, possibly an object with __call__) and
+    # the line anchors inside function bodies are optional instrumentation
+    watch_entry(ctx, reach, calc, '_compute')
     sbw = nsf.Neutron.scattering_by_wavelength
-    _state['watched'] = set()
     for func, texts, label in ((calc, ('return 0, 0, 0',), 'branch.compute_vacuum'),
                                (calc, ('return sld_re, sld_im, sld_inc', 'sld_inc = ', 'sigma_i = '), 'branch.compute_body'),
                                (sbw, ('return ones*self.b_c_complex', 'if self.nsf_table is None'), 'branch.constant_b_c'),
                                (sbw, ('np.interp(', 'return b_c, sigma_s'), 'branch.energy_table')):
-        _watch_first(ctx, reach, func, texts, label)
+        watch_lines(ctx, reach, func, texts, label)
     try:
         reach.start()
     except Exception as exc:
@@ -865,15 +886,28 @@ def finish(ctx):
         ctx.count(k, v)
     uni = _state['uni']
     ctx.info['universe'] = {k: len(v) for k, v in uni.classes.items()}
+    # optional instrumentation of private helpers: evidence only when a tree does not have / use / show them
+    from ..ref.neutron import anchor_missing, waive_if_bypassed
+    n = _state['n']
+    for name, extra in (('contract._sum_piece', []), ('contract._calculate_scattering', ['reach.direct_clip_engaged'])):
+        unread = n.get(name + '.unrecognised_call', 0) + n.get(name + '.unrecognised_result', 0)
+        if unread and not n.get(name, 0):
+            anchor_missing(ctx, 'postcondition %s' % name, [name] + extra,
+                           why='met %d calls whose arguments or result it does not recognise and none it does' % unread)
+        elif waive_if_bypassed(ctx, name, 'applications', 'postcondition %s' % name) and extra:
+            anchor_missing(ctx, 'clip counter of that postcondition', extra, why='goes with it')
+    for label in ('_compute', 'branch.compute_vacuum', 'branch.compute_body', 'branch.energy_table', 'branch.constant_b_c'):
+        # the anchor exists but the calculators of this tree do not run through it: evidence only
+        waive_if_bypassed(ctx, 'reach.' + label, 'applications', 'entry / line counter %s' % label)
     ctx.require('contract._sum_piece', 1, 'the postcondition on _sum_piece must have been evaluated')
     ctx.require('contract._calculate_scattering', 1, 'the direct route must have gone through _calculate_scattering')
     ctx.require('reach._compute', 1, 'the calculator closure was never entered')
+    ctx.require('applications', 1, 'no calculator was applied and compared with the direct route (public-level counterpart of reach._compute)')
     for label, why in (('branch.compute_vacuum', 'vacuum branch of the calculator never taken'),
                        ('branch.compute_body', 'non-vacuum branch of the calculator never taken'),
                        ('branch.energy_table', 'energy-table branch of scattering_by_wavelength never entered'),
                        ('branch.constant_b_c', 'constant-b_c branch of scattering_by_wavelength never entered')):
-        if label in _state.get('watched', ()):
-            ctx.require('reach.' + label, 1, why)
+        ctx.require('reach.' + label, 1, why)      # waived by anchor_missing.* when the line anchor is not in this tree
     ctx.require('eval.value', 1, 'no non-vacuum comparison of the calculator with the direct route')
     ctx.require('reach.direct_clip_engaged', 1, 'no case with sigma_s < sigma_c: the incoherent clip never engaged')
     ctx.require('reach.incoherent_exactly_zero', 1, 'no case where the clipped incoherent SLD is exactly zero')
